@@ -1,6 +1,6 @@
 PROP = "C13"
 LEVEL = "proof"
-CONTRACT_MODULES = ["postprocessing"]
+CONTRACT_MODULES = ["postprocessing", "knee_ranking"]
 DEDUCTIVE = [
     ("postprocessing", "kneeliverse.postprocessing.filter_worst_knees"),
     ("postprocessing", "kneeliverse.postprocessing.filter_worst_knees#idem"),
@@ -10,11 +10,13 @@ DEDUCTIVE = [
 EXPLANATION = ("filter_worst_knees: proved to return exactly the order-preserving subsequence selected by 'height <= every earlier height' "
                "(ghost index maps IDX/POS/KEPT witness the subsequence), heights non-increasing; idempotence is a second specification of "
                "the same body (non-increasing heights in => identity out) composed with the first. Corner filter / selector: proved to return "
-               "an order-preserving duplicate-free subsequence, to complete without index errors (the neighbour rows exist whenever they are "
-               "read) and never to divide by zero in rect_overlap; the IoU threshold rule itself, the partition and idempotence of the corner "
-               "pair are covered by the bounded layer in exact rational arithmetic.")
-ASSUMPTIONS = ["mode R for the height comparison; the IoU selection rule of the corner filters is bounded-only (see contracts/postprocessing.py)"]
+               "exactly the order-preserving subsequence selected by the statement's rule - the filter keeps a knee iff it lacks a neighbour or "
+               "the intersection-over-union of the corner rectangle (p0.x,p2.y)-(p1) and the neighbour rectangle p0-p2 is < t, the selector iff it "
+               "has both neighbours and that IoU is >= t (kr.rect / kr.rect_overlap by their C17 contracts; named spec function IoU). The two "
+               "rules are complementary per element, so the outputs partition the knee list. Idempotence of the corner pair is covered by the "
+               "bounded layer (exact rationals).")
+ASSUMPTIONS = ["mode R for the height and IoU comparisons"]
 LEVEL_TEXT = ("Proof of the worst-knee filter's exact selection rule and idempotence and of the structural clauses (order-preserving subsequence, "
-              "completion) of the corner filter/selector, for all curves and knee lists; the corner IoU rule is a labelled bounded stand-in.")
-LEVEL_NOTE = "np.array as value identity; rect/rect_overlap inlined; corner IoU rule: bounded only (nonlinear identity not discharged stably by z3)."
+              "completion) of the corner filter/selector, for all curves and knee lists; the corner IoU rule included; bounded exact-rational layer for idempotence of the corner pair and as cross-check.")
+LEVEL_NOTE = "A-REAL; np.array as value identity; rect / rect_overlap by contract (verified under C17)."
 TECHNIQUE = "contract-based deductive verification (AST->VC, z3) with ghost subsequence witnesses; bounded exact-rational run-time layer as labelled stand-in"
